@@ -129,6 +129,7 @@ package server
 //@ unit (*BackupManager).LoadLastID
 //@   prop C20
 //@   requires backupManager != nil
+//@   preserves BackupManager.*, Store.*
 //@   ensures [no-cursor-means-zero] !readable(cursorPath(backupManager.backupLocation)) ==> ret0 == 0 && ret1 == nil
 //@   at call Open#1 before
 //@     assert [cursor-path-read] name == cursorPath(backupManager.backupLocation)
@@ -945,6 +946,7 @@ package server
 //@ unit (*Dataset).updateDataset
 //@   prop C19 C14
 //@   ghost hadG bool = false
+//@   ghost persistedNsG intmap
 //@   ghost wasFloatG bool = false
 //@   ghost truncG int = 0
 //@   requires ds != nil
@@ -968,6 +970,13 @@ package server
 //@     assert [C19:updated-meta-entity-is-the-one-stored] len($arg1) == 1 && $arg1[0] == dsEntity
 //@   at call storeValue#1 before
 //@     assert [C14:changed-namespace-list-written-to-the-named-datasets-own-record] recordName(key) == dataset.ID && value == jsonData
+//@   at call Marshal#1 before
+//@     assert [C14:the-record-written-is-the-serialised-dataset-with-the-new-namespace-list] cast(v, "*server.Dataset") == dataset
+//@   at call storeValue#1
+//@     ghost persistedNsG := ($result == nil) ? put(persistedNsG, dataset, arrOf(dataset.PublicNamespaces)) : persistedNsG
+//@   loop 1
+//@     invariant -1 <= $i && $i < len(entities)
+//@     invariant [C14:a-replaced-namespace-list-is-persisted-before-the-next-entity-is-looked-at] forall d *Dataset :: arrOf(d.PublicNamespaces) != old(arrOf(d.PublicNamespaces)) ==> persistedNsG[d] == arrOf(d.PublicNamespaces)
 
 // renaming a dataset: the record moves from the key of the old name to the key of the new name (one transaction, see
 // moveValue) and carries the new name; the registry is updated only after the record moved; the meta entity of the old
@@ -1030,8 +1039,11 @@ package server
 //@   pure
 
 //@ unit (*Store).ExecuteTransaction
-//@   prop C04 C05 C01 C03 C06
+//@   prop C04 C05 C01 C03 C06 C19
 //@   ghost idsCommittedG bool = false
+//@   ghost countedG strset = emptystrset()
+//@   ghost allCountedG bool = false
+//@   ensures [C19:an-acknowledged-transaction-updated-the-items-counter-of-every-dataset-it-wrote] result == nil ==> allCountedG
 //@   ghost txnG int = 0
 //@   requires s != nil && transaction != nil && s.MetaCtx != nil
 //@   requires [callers-hold-no-dataset-lock] forall l int :: has($held, l) ==> lockLevel(l) < 2
@@ -1052,6 +1064,12 @@ package server
 //@     ghost idsCommittedG := $result == nil
 //@   at call Commit#1 before
 //@     assert [C04:ids-committed-before-data] idsCommittedG && $arg0 == txnG
+//@   at call updateDataset#1 before
+//@     assert [C19:a-datasets-counter-grows-by-its-own-number-of-first-seen-ids] newItemCount == updateCountsPerDataset[k] && has(updateCountsPerDataset, k)
+//@     ghost countedG := add(countedG, k)
+//@   at loop 4 exit
+//@     assert [C19:every-written-dataset-had-its-counter-updated] forall n string :: has(updateCountsPerDataset, n) ==> has(countedG, n)
+//@     ghost allCountedG := true
 //@   at call UnixNano#1 before
 //@     assert [C05,C01,C03,C06:version-timestamp-taken-after-every-dataset-lock] forall a int :: 0 <= a && a < len(datasetNames) ==> has($held, addrOf(datasets[datasetNames[a]].WriteLock))
 //@   loop 1
@@ -1063,6 +1081,9 @@ package server
 //@     invariant forall d *Dataset :: has($held, addrOf(d.WriteLock)) ==> $i >= 0 && d.ID <= datasetNames[$i]
 //@     invariant forall l int :: has($held, l) ==> lockLevel(l) <= 2
 //@     invariant forall a int :: 0 <= a && a <= $i ==> has(datasets, datasetNames[a]) && datasets[datasetNames[a]] != nil && has($held, addrOf(datasets[datasetNames[a]].WriteLock))
+//@   loop 4
+//@     invariant forall n string :: visited(n) ==> has(countedG, n)
+//@     invariant !allCountedG
 
 // ---------------------------------------------------------------------------
 // C01: merging the per-dataset versions of an entity (unscoped lookup): keys are united; a value present on both
@@ -1305,7 +1326,7 @@ package server
 //@ spec pairSnd(k int) int
 //@ axiom pairKey_injective: forall a int, b int :: pairFst(pairKey(a, b)) == a && pairSnd(pairKey(a, b)) == b
 //@ unit (*Store).GetRelatedAtTime
-//@   prop C03 C06 C07
+//@   prop C03 C06 C07 C18
 //@   ghost appendedFinalG bool = false
 //@   ghost pendingG bool = false
 //@   ghost curPassG bool = false
@@ -1324,7 +1345,7 @@ package server
 //@   requires-inv [existing-objects] foreign(s.deletedDatasets)
 //@   requires-inv [start-key-is-a-whole-buffer] from != nil ==> offOf(from.RelationIndexFromKey) == 0 && foreign(from.RelationIndexFromKey)
 //@   ensures [C06:continuation-pins-the-instant-and-the-query] ret2 == nil && ret1 != nil ==> ret1.At == from.At && ret1.Predicate == from.Predicate && ret1.Inverse == from.Inverse && ret1.Datasets == from.Datasets
-//@   ensures [C03:incoming-page-that-filled-up-before-the-last-referrer-was-flushed-keeps-a-continuation] ret2 == nil && pendingG ==> ret1 != nil
+//@   ensures [C03,C18:incoming-page-that-filled-up-before-the-last-referrer-was-flushed-keeps-a-continuation] ret2 == nil && pendingG ==> ret1 != nil
 //@   ensures [C03:outgoing-page-respects-the-limit] ret2 == nil && !from.Inverse && limit > 0 ==> len(ret0) <= limit
 //@   safe slice
 //@   at $1 call Seek#2 before
@@ -1732,3 +1753,54 @@ package server
 //@     ghost nowG := $result
 //@   at call GetEntityAtPointInTimeWithInternalID#1 before
 //@     assert [C01,C06:a-present-time-lookup-is-the-point-in-time-lookup-at-now] $arg1 == internalID && $arg2 == nowG && $arg3 == targetDatasetIds && $arg4 == mergePartials
+
+// ---------------------------------------------------------------------------
+// C13: the service layer reads the namespace registry through BadgerAccess: both lookups happen under the registry's lock
+//@ unit (BadgerAccess).LookupNamespaceExpansion
+//@   prop C13
+//@   requires-inv [the-bridge-is-constructed-over-an-open-store] b.dsm != nil && b.dsm.store != nil && b.dsm.store.NamespaceManager != nil
+//@   requires [the-namespace-lock-is-free] !has($held, addrOf(b.dsm.store.NamespaceManager.lock))
+//@   requires [callers-hold-no-lock-at-or-above-the-namespace-lock] forall l int :: has($held, l) ==> lockLevel(l) < 5
+//@   modifies $held, $acq
+//@   ensures [lock-released] $held == old($held)
+//@   ensures [C13:a-registered-prefix-resolves-to-its-expansion] has(b.dsm.store.NamespaceManager.prefixToExpansionMapping, prefix) ==> ret1 == nil && ret0 == b.dsm.store.NamespaceManager.prefixToExpansionMapping[prefix]
+//@ unit (BadgerAccess).LookupExpansionPrefix
+//@   prop C13
+//@   requires-inv [the-bridge-is-constructed-over-an-open-store] b.dsm != nil && b.dsm.store != nil && b.dsm.store.NamespaceManager != nil
+//@   requires [the-namespace-lock-is-free] !has($held, addrOf(b.dsm.store.NamespaceManager.lock))
+//@   requires [callers-hold-no-lock-at-or-above-the-namespace-lock] forall l int :: has($held, l) ==> lockLevel(l) < 5
+//@   modifies $held, $acq
+//@   ensures [lock-released] $held == old($held)
+//@   ensures [C13:a-registered-expansion-resolves-to-its-prefix] has(b.dsm.store.NamespaceManager.expansionToPrefixMapping, namespaceURI) ==> ret1 == nil && ret0 == b.dsm.store.NamespaceManager.expansionToPrefixMapping[namespaceURI]
+
+// ---------------------------------------------------------------------------
+// C20: a restarted hub resumes the incremental backup exactly at the cursor the last completed run persisted; wiping the
+// store removes the store directory, and with it the store's identity file, so an old backup location is refused afterwards
+//@ assumed cron.ParseStandard
+//@   pure
+//@ assumed (*cron.Cron).Schedule
+//@   pure
+//@ assumed jobrunner.New
+//@   pure
+//@ unit server.NewBackupManager
+//@   prop C20
+//@   ghost loadedG int = 0
+//@   requires env != nil && env.Logger != nil
+//@   ensures [C20:a-restarted-hub-resumes-the-backup-exactly-at-the-persisted-cursor] ret1 == nil && ret0 != nil ==> ret0.lastID == loadedG
+//@   ensures [C20:the-backup-manager-dumps-the-store-it-was-given-to-the-configured-location] ret1 == nil && ret0 != nil ==> ret0.store == store && ret0.backupLocation == old(env.BackupLocation)
+//@   at call LoadLastID#1
+//@     ghost loadedG := $result0
+//@ assumed (*badger.DB).Close
+//@   pure
+//@ assumed os.RemoveAll
+//@   pure
+//@ unit (*Store).Close
+//@   prop C14
+//@   requires s != nil
+//@   modifies none
+//@ unit (*Store).Delete
+//@   prop C20 C14
+//@   requires s != nil && s.NamespaceManager != nil && !has($held, addrOf(s.NamespaceManager.lock))
+//@   requires [callers-hold-no-lock] forall l int :: has($held, l) ==> lockLevel(l) < 1
+//@   at call RemoveAll#1 before
+//@     assert [C20,C14:wiping-the-store-removes-the-store-directory-with-the-stores-identity-file] path == s.storeLocation
